@@ -8,7 +8,7 @@
    the observed stored array of EVERY live object after EVERY operation with the model's state, so an
    operation that writes into a stored array (directly or through a view) disagrees with the model.
    No proofs here. *)
-From CV Require Import Base.Tac Base.Cmp Model.C19_Stats.
+From CV Require Import Base.Tac Base.Cmp Model.C19_Stats Model.C19_Rhat.
 From Coq Require Import QArith Qabs.
 From Coq Require String.
 
@@ -16,20 +16,29 @@ Definition hobj := samples_obj (list Z).
 
 (* The one geometry shared by all objects of a history, as far as Samples uses it:
    variables (names handed to arviz), par2fun p = a*p + b elementwise with a = 1 or a = -1 (so that
-   fun2par f = a*(f - b) is its exact inverse), and whether function values are 2-d arrays
-   (Image2D: funvals are not in vector form) or 1-d arrays. *)
-Record geom := mkG { g_names : list string; g_a : Z; g_b : Z; g_fun2d : bool }.
+   fun2par f = a*(f - b) is its exact inverse), whether function values are 2-d arrays (Image2D,
+   Continuous2D: funvals are not in vector form) or 1-d arrays, and whether the geometry lacks
+   vec2fun / fun2vec (Continuous2D: the base-class methods raise NotImplementedError for 2-d function
+   values, and so does everything that needs funvec_dim / funvec_shape).
+   g_rhat_bcast: repair state of compute_rhat (true = unrepaired code: a chain with ONE draw is broadcast
+   over all draws by the numpy assignment `samples[:,i+1,:] = chain.samples`; false = lengths are
+   validated).  Probed by the harness on every run. *)
+Record geom := mkG { g_names : list string; g_a : Z; g_b : Z; g_fun2d : bool; g_novec : bool; g_rhat_bcast : bool }.
 
 Inductive op :=
 | OMean (i : nat) | OMedian (i : nat) | OVar (i : nat) | OStd (i : nat)
 | OCi (i : nat) (cn : Z) (cd : positive) | OCiWidth (i : nat) (cn : Z) (cd : positive)
-| OArviz (i : nat)            (* to_arviz_inferencedata() *)
+| OArviz (i : nat) (sel : option (list nat)) (needs_dim : bool)
+                              (* to_arviz_inferencedata(variable_indices = sel); needs_dim: reached through plot_trace /
+                                 plot_pair / plot_autocorrelation / plot_violin, which read _geometry_dim first; the value is
+                                 the dictionary handed to arviz *)
 | OEss (i : nat)              (* compute_ess(): value = what arviz.ess is handed *)
-| ORhat (i j : nat) (geom_eq : bool)
-                              (* obj_i.compute_rhat(obj_j): value = what arviz.rhat is handed.  compute_rhat first asks
-                                 cuqi.geometry whether the two geometries are equal; that comparison is code outside this
+| ORhat (i : nat) (js : list nat) (geom_eq : bool) (m : rmethod)
+                              (* obj_i.compute_rhat([obj_j ...], method=m): value = what arviz.rhat is handed and, for
+                                 m = split / identity, the square of every returned number.  compute_rhat first asks
+                                 cuqi.geometry whether the geometries are equal; that comparison is code outside this
                                  property: its answer (True = "equal", False = "different" or it raised) is an INPUT here,
-                                 observed by the harness on the same two objects immediately before the call *)
+                                 observed by the harness on the same objects immediately before the call *)
 | OFunvals (i : nat) | OVector (i : nat) | OParameters (i : nat)
 | OBurnthin (i nb nt : nat)
 | OJoint (members : list nat) (nb nt : nat)   (* JointSamples(members).burnthin(nb, nt) *)
@@ -39,7 +48,9 @@ Inductive oval :=
 | VStat (v : list Q)                               (* one number per coordinate *)
 | VCi (lo hi : list Q)
 | VDict (d : list (string * list Z))               (* name -> chain *)
-| VDict2 (d : list (string * list (list Z)))       (* name -> [chain of self; chain of other] *)
+| VRhat (d : list (string * list (list Z))) (sq : option (list (option Q)))
+                                                   (* name -> [chain of self; chains of the others], and per variable
+                                                      Rhat^2 (None inside = nan; None outside = method not modelled) *)
 | VSelf                                            (* the target object itself was returned *)
 | VObj (o : hobj)                                  (* a new object (appended to the state) *)
 | VObjs (l : list hobj)                            (* new objects (appended to the state) *)
@@ -50,9 +61,9 @@ Inductive oval :=
 (* the objects an operation reads *)
 Definition op_targets (o : op) : list nat :=
   match o with
-  | OMean i | OMedian i | OVar i | OStd i | OCi i _ _ | OCiWidth i _ _ | OArviz i | OEss i
+  | OMean i | OMedian i | OVar i | OStd i | OCi i _ _ | OCiWidth i _ _ | OArviz i _ _ | OEss i
   | OFunvals i | OVector i | OParameters i | OBurnthin i _ _ | OQuiet i => [i]
-  | ORhat i j _ => [i; j]
+  | ORhat i js _ _ => i :: js
   | OJoint ms _ _ => ms
   end.
 
@@ -80,6 +91,56 @@ Fixpoint burnthin_all (nb nt : nat) (os : list hobj) : option (list hobj) :=
               end
   end.
 
+(* selection by a list of indices (numpy fancy indexing with in-range indices); None if one is out of range *)
+Fixpoint select {A} (l : list A) (sel : list nat) : option (list A) :=
+  match sel with
+  | [] => Some []
+  | k :: r => match nth_error l k, select l r with
+              | Some a, Some t => Some (a :: t)
+              | _, _ => None
+              end
+  end.
+
+(* the dictionary built by to_arviz_inferencedata *)
+Definition arviz_value (g : geom) (x : hobj) (sel : option (list nat)) (needs_dim : bool) : oval :=
+  if negb (s_is_vec x) then VRefused
+  else if (needs_dim || match sel with None => true | Some _ => false end) && g_novec g && negb (s_is_par x)
+       then VRefused                                            (* _geometry_dim -> funvec_dim raises *)
+  else match sel with
+       | None => VDict (arviz_dict (g_names g) (coords (s_chain x)))
+       | Some ks => match select (g_names g) ks, select (coords (s_chain x)) ks with
+                    | Some ns, Some rs => VDict (arviz_dict ns rs)
+                    | _, _ => VRefused
+                    end
+       end.
+
+(* the chain of one other object as it ends up in the array handed to arviz.rhat: as stored when the
+   numbers of draws agree; a single draw repeated n times in the unrepaired code; otherwise refused *)
+Definition rhat_other (g : geom) (n : nat) (y : hobj) : option (list (list Z)) :=
+  if negb (s_is_vec y) then None
+  else if (length (s_chain y) =? n)%nat then Some (s_chain y)
+  else if g_rhat_bcast g && (length (s_chain y) =? 1)%nat then Some (concat (repeat (s_chain y) n))
+  else None.
+
+Fixpoint rhat_others (g : geom) (n : nat) (ys : list hobj) : option (list (list (list Z))) :=
+  match ys with
+  | [] => Some []
+  | y :: r => match rhat_other g n y, rhat_others g n r with
+              | Some c, Some t => Some (c :: t)
+              | _, _ => None
+              end
+  end.
+
+Definition rhat_value (g : geom) (x : hobj) (ys : list hobj) (geq : bool) (m : rmethod) : oval :=
+  if negb geq || negb (s_is_vec x) || (g_novec g && negb (s_is_par x)) then VRefused
+  else match rhat_others g (length (s_chain x)) ys with
+       | None => VRefused
+       | Some cs =>
+           let per_var := map (fun k => map (coordchain k) (s_chain x :: cs)) (seq 0 (chain_dim (s_chain x))) in
+           VRhat (dict_of (zip (g_names g) per_var))
+                 (match m with RRank => None | _ => Some (map (rhat_sq_opt m) per_var) end)
+       end.
+
 (* value of an operation, given the objects it reads (in the order of op_targets); None = wrong arity *)
 Definition op_value (g : geom) (o : op) (args : list hobj) : option oval :=
   match o, args with
@@ -89,24 +150,21 @@ Definition op_value (g : geom) (o : op) (args : list hobj) : option oval :=
   | OStd _, [x] => Some (VStat (stat_of variance (s_chain x)))     (* the harness squares the observed std *)
   | OCi _ cn cd, [x] => Some (VCi (stat_of (fun l => ci_lo l cn cd) (s_chain x)) (stat_of (fun l => ci_hi l cn cd) (s_chain x)))
   | OCiWidth _ cn cd, [x] => Some (VStat (stat_of (fun l => ci_width l cn cd) (s_chain x)))
-  | OArviz _, [x] | OEss _, [x] =>
-      Some (if s_is_vec x then VDict (arviz_dict (g_names g) (coords (s_chain x))) else VRefused)
-  | ORhat _ _ geq, [x; y] =>
-      (* both arrays must be (variables, draws) with equal draws (unequal numbers of draws are decided
-         by numpy broadcasting and are not generated) *)
-      Some (if geq && s_is_vec x && s_is_vec y && (length (s_chain x) =? length (s_chain y))%nat
-            then VDict2 (dict_of (zip (g_names g)
-                                      (map (fun k => [coordchain k (s_chain x); coordchain k (s_chain y)])
-                                           (seq 0 (chain_dim (s_chain x))))))
-            else VRefused)
+  | OArviz _ sel nd, [x] => Some (arviz_value g x sel nd)
+  | OEss _, [x] => Some (arviz_value g x None false)
+  | ORhat _ _ geq m, x :: ys => Some (rhat_value g x ys geq m)
   | OFunvals _, [x] =>
       Some (if negb (s_is_par x) && negb (s_is_vec x) then VSelf
+            else if negb (s_is_par x) && g_novec g then VRefused                      (* vec2fun raises *)
             else VObj (mkS (if s_is_par x then vmap (fun p => g_a g * p + g_b g)%Z (s_chain x) else s_chain x)
                            false (negb (g_fun2d g)) (s_geom x)))
   | OVector _, [x] =>
-      Some (if s_is_vec x || s_is_par x then VSelf else VObj (mkS (s_chain x) (s_is_par x) true (s_geom x)))
+      Some (if s_is_vec x || s_is_par x then VSelf
+            else if g_novec g then VRefused                                           (* funvec_dim / fun2vec raise *)
+            else VObj (mkS (s_chain x) (s_is_par x) true (s_geom x)))
   | OParameters _, [x] =>
       Some (if s_is_par x then VSelf
+            else if s_is_vec x && g_novec g then VRefused                             (* fun2par(vec2fun(.)) raises *)
             else VObj (mkS (vmap (fun f => g_a g * (f - g_b g))%Z (s_chain x)) true true (s_geom x)))
   | OBurnthin _ nb nt, [x] =>
       Some (match obj_burnthin nb nt x with Some x' => VObj x' | None => VRefused end)
@@ -167,7 +225,16 @@ Definition oval_close (obs mdl : oval) : bool :=
   | VStat a, VStat b => ql_close tol9 a b
   | VCi a1 a2, VCi b1 b2 => ql_close tol9 a1 b1 && ql_close tol9 a2 b2
   | VDict a, VDict b => dict_eqb zl_eqb a b
-  | VDict2 a, VDict2 b => dict_eqb zll_eqb a b
+  | VRhat a sa, VRhat b sb =>
+      dict_eqb zll_eqb a b &&
+      match sb, sa with
+      | None, _ => true                                   (* method not modelled: numbers not compared here *)
+      | Some mb, Some ma => list_eqb (fun x y => match x, y with
+                                                  | Some p, Some q => q_close tol9 p q
+                                                  | None, None => true
+                                                  | _, _ => false end) ma mb
+      | Some _, None => false
+      end
   | VSelf, VSelf | VNone, VNone | VRefused, VRefused => true
   | VObj a, VObj b => hobj_eqb a b
   | VObjs a, VObjs b => list_eqb hobj_eqb a b
